@@ -220,6 +220,9 @@ func (c *Check) Finish() int {
 	if len(c.samples) == 0 {
 		cov["samples"] = []interface{}{"(none)"}
 	}
+	if c.Assump == nil {
+		c.Assump = []string{}
+	}
 	kf := []string{}
 	for k := range c.known {
 		kf = append(kf, k)
